@@ -1135,6 +1135,17 @@ func ruleErrorsReturnedAs(c *Ctx, fns []*ssa.Function, rule string, skip func(ke
 	}
 }
 
+// isNamedResult: a is the variable of one of fn's named results.
+func isNamedResult(fn *ssa.Function, a *ssa.Alloc) bool {
+	res := fn.Signature.Results()
+	for i := 0; i < res.Len(); i++ {
+		if res.At(i).Name() != "" && res.At(i).Name() == a.Comment && a.Parent() == fn {
+			return true
+		}
+	}
+	return false
+}
+
 func ruleErrorsReturned(c *Ctx, fns []*ssa.Function) {
 	for _, fn := range fns {
 		ord := map[string]int{}
@@ -1146,6 +1157,29 @@ func ruleErrorsReturned(c *Ctx, fns []*ssa.Function) {
 					if isErrorType(res.Type()) {
 						if k, isK := res.(*ssa.Const); isK && k.Value == nil {
 							success = append(success, b)
+						}
+						// a named result that is read back at the return (functions with a deferred recover): it is still nil
+						// there unless an assignment to it is certain to have happened before
+						if ld, isLd := res.(*ssa.UnOp); isLd && ld.Op == token.MUL {
+							if a, isAlloc := ld.X.(*ssa.Alloc); isAlloc && a.Referrers() != nil && isNamedResult(fn, a) {
+								assigned := false
+								for _, ar := range *a.Referrers() {
+									if st, isSt := ar.(*ssa.Store); isSt && st.Addr == a && st.Parent() == fn {
+										if k, isK := st.Val.(*ssa.Const); isK && k.Value == nil {
+											continue
+										}
+										if self, isSelf := st.Val.(*ssa.UnOp); isSelf && self.Op == token.MUL && self.X == ssa.Value(a) {
+											continue // `return err` of the named result itself: assigns what it already holds
+										}
+										if st.Block() == ld.Block() || st.Block().Dominates(ld.Block()) {
+											assigned = true
+										}
+									}
+								}
+								if !assigned {
+									success = append(success, b)
+								}
+							}
 						}
 					}
 				}
